@@ -480,7 +480,7 @@ class Builder:
         """(key node, value) pairs, in insertion order, of a dict that is statically known: a display without `**` spreads, possibly
         followed by item assignments under constant keys (`d["k"] = v` replaces in place or appends, like Python); else None."""
         if isinstance(n, tuple) and n and n[0] == "dict":
-            if any(k == ("const", "**") or not (isinstance(k, tuple) and k and k[0] == "const") for k, _ in n[1]):
+            if any(k == ("const", "**") or not (isinstance(k, tuple) and k and k[0] in ("const", "global")) for k, _ in n[1]):
                 return None
             return list(n[1])
         if isinstance(n, tuple) and n and n[0] == "setitem":
@@ -513,7 +513,7 @@ class Builder:
                 if any(isinstance(e, tuple) and e and e[0] == "star" for e in it[1]):
                     return None
                 return list(it[1])
-            if it[0] == "call" and it[1] == ("global", "zip") and not it[3]:
+            if it[0] == "call" and it[1] == ("global", "zip") and all(k_ == "strict" for k_, _ in it[3]):
                 cols = [self.static_elems(a) for a in it[2]]
                 if all(c is not None for c in cols) and cols:
                     n = min(len(c) for c in cols)
@@ -553,6 +553,14 @@ class Builder:
             self.trace.append((test, f))
         return (not f) if neg else f
 
+    def _names_class_or_function(self, q):
+        """the qualified name is a class or a module-level function of the analysed package (an object that is never None)"""
+        if q in self.prog.classes:
+            return True
+        mod, _, name = q.rpartition(".")
+        mm = self.prog.modules.get(mod)
+        return mm is not None and name in mm.functions
+
     def fold(self, t):
         """Static truth value of a test node if known."""
         if not isinstance(t, tuple):
@@ -568,7 +576,8 @@ class Builder:
             known_none = a == NONE
             known_not_none = isinstance(a, Closure) or (
                 isinstance(a, tuple) and a[0] in ("tuple", "list", "dict", "record", "bin", "cmp", "update")
-            ) or (isinstance(a, tuple) and a[0] == "const" and a[1] is not None)
+            ) or (isinstance(a, tuple) and a[0] == "const" and a[1] is not None) or (isinstance(a, tuple) and a and a[0] == "partial") or (
+                isinstance(a, tuple) and a and a[0] == "global" and self._names_class_or_function(a[1]))
             if known_none:
                 return t[1] == "Is"
             if known_not_none:
@@ -616,6 +625,11 @@ class Builder:
                 isinstance(e, tuple) and e and e[0] == "star" for e in v[1]
             ):
                 elems = v[1]
+            if elems is None and star and isinstance(v, tuple) and v and v[0] == "call" and v[1] == ("global", "jax.random.split"):
+                # jr.split(key, n) with a literal n has exactly n rows: a starred unpacking of it is as static as a plain one
+                num = v[2][1] if len(v[2]) > 1 else dict((k_, x_) for k_, x_ in v[3] if k_).get("num", ("const", 2))
+                if isinstance(num, tuple) and num[0] == "const" and isinstance(num[1], int) and not isinstance(num[1], bool) and 0 < num[1] <= 64:
+                    elems = tuple(self.item(v, i) for i in range(num[1]))
             if not star:
                 for i, e in enumerate(t.elts):
                     self.bind(e, elems[i] if elems is not None and i < len(elems) else self.item(v, i), env, ctx)
@@ -687,6 +701,20 @@ class Builder:
                     pass
         n = ("item", v, i)
         return n
+
+    def namedtuple_fields(self, v):
+        """field values, in declared order, of a record whose class is a typing.NamedTuple (such a value IS the tuple of its fields:
+        it unpacks, splices with `*` and indexes like one); None for anything else"""
+        if not (isinstance(v, tuple) and v and v[0] == "record"):
+            return None
+        ci = self.prog.classes.get(v[1])
+        if ci is None or not any(b.split(".")[-1] == "NamedTuple" for b in self.prog.external_bases(ci)):
+            return None
+        order = [f.name for f in self.prog.dataclass_fields(ci)]
+        d = dict(v[2])
+        if set(order) != set(d):
+            return None
+        return tuple(d[nm] for nm in order)
 
     def snap(self, v):
         if isinstance(v, Closure):
@@ -807,7 +835,9 @@ class Builder:
             spec = self.ev(e.format_spec, env, ctx) if e.format_spec is not None else NONE
             return ("call", ("global", "<format>"), (v, ("const", e.conversion), spec), ())
         if isinstance(e, ast.Starred):
-            return ("star", self.ev(e.value, env, ctx))
+            v = self.ev(e.value, env, ctx)
+            nt = self.namedtuple_fields(v)
+            return ("star", ("tuple", nt) if nt is not None else v)
         if isinstance(e, (ast.ListComp, ast.GeneratorExp, ast.SetComp, ast.DictComp)):
             return self.comp(e, env, ctx)
         if isinstance(e, ast.Slice):
@@ -850,7 +880,7 @@ class Builder:
         kind = type(e).__name__
         gens = e.generators
         # try static unrolling for a single generator over a known iterable
-        if len(gens) == 1 and not gens[0].ifs and kind in ("ListComp", "GeneratorExp"):
+        if len(gens) == 1 and kind in ("ListComp", "GeneratorExp"):
             it = self.ev(gens[0].iter, env, ctx)
             elems = self.static_elems(it)
             if elems is not None and len(elems) <= 128:
@@ -858,8 +888,20 @@ class Builder:
                 for x in elems:
                     sub = dict(env)
                     self.bind(gens[0].target, x, sub, ctx)
-                    out.append(self.snap(self.ev(e.elt, sub, ctx)))
-                return ("list", tuple(out))
+                    # a filter is honoured when it is decided statically for every element (isinstance of a known class, a constant test)
+                    tests = [self.ev(c, sub, ctx) for c in gens[0].ifs]
+                    keep = [self.fold(t_) for t_ in tests]
+                    if any(k is None for k in keep):
+                        if len(elems) > 8 or any(isinstance(x, tuple) and x and x[0] == "bound" for t_ in tests for x in walk(t_)):
+                            out = None
+                            break
+                        # a filter on a concrete element that is not decided statically is a case of the enclosing function, exactly like
+                        # the conditional expression `x if flag else nothing` it abbreviates
+                        keep = [k if k is not None else self.decide(t_, gens[0]) for k, t_ in zip(keep, tests)]
+                    if all(keep):
+                        out.append(self.snap(self.ev(e.elt, sub, ctx)))
+                if out is not None:
+                    return ("list", tuple(out))
         sub = dict(env)
         gnodes = []
         self.bound_depth += 1
@@ -949,6 +991,11 @@ class Builder:
                             return self.maybe_inline_property(base, ci, r[1], r[2], name, ctx)
                         return self.func_ref(r[1], r[2], base, dyn_cls=ci)
                 return ("attr", base, name)
+            if k == "while" and self.namedtuple_fields(base[3]) is not None:
+                # the result of a while loop has the type of its initial carry: a field of a NamedTuple carry is its positional element
+                order = [f.name for f in self.prog.dataclass_fields(self.prog.classes[base[3][1]])]
+                if name in order:
+                    return self.item(base, order.index(name))
             if k == "update" and not self._is_method_name(base, name):
                 for path, v in base[2]:
                     if path == (name,):
@@ -1140,6 +1187,28 @@ class Builder:
                     return ("scan", self.fnval(b.get("f")), b.get("init", NONE), b.get("xs", NONE), b.get("length", NONE), b.get("reverse", FALSE))
                 if q in WHILE and len(args) == 3:
                     return ("while", self.fnval(args[0]), self.fnval(args[1]), args[2])
+                if q in ("operator.attrgetter", "operator.itemgetter") and args and not kwargs:
+                    # attrgetter("a", "b.c") is `lambda o: (o.a, o.b.c)` (a bare value for one name); itemgetter likewise with o[k]
+                    names = []
+                    for a_ in args:
+                        if isinstance(a_, tuple) and a_ and a_[0] == "star":
+                            sub = self.static_elems(a_[1])
+                            names = None if sub is None or names is None else names + list(sub)
+                        elif names is not None:
+                            names.append(a_)
+                    if names is not None and all(isinstance(x, tuple) and x[0] == "const" and (isinstance(x[1], str) if q.endswith("attrgetter") else isinstance(x[1], (str, int)))
+                                                 and not isinstance(x[1], bool) for x in names):
+                        if q.endswith("attrgetter") and all(all(part.isidentifier() for part in x[1].split(".")) for x in names):
+                            parts = [f"__o.{x[1]}" for x in names]
+                        elif q.endswith("itemgetter"):
+                            parts = [f"__o[{x[1]!r}]" for x in names]
+                        else:
+                            parts = None
+                        if parts:
+                            src = "lambda __o: " + (parts[0] if len(parts) == 1 else "(" + ", ".join(parts) + ")")
+                            c_ = Closure(ast.parse(src, mode="eval").body, {}, Ctx(list(self.prog.modules.values())[0], None, None), "<getter>")
+                            c_.snapped = True
+                            return c_
                 if q in TREE_AT:
                     r = self.tree_at(args, kw)
                     if r is not None:
@@ -1152,6 +1221,17 @@ class Builder:
                     return args[0]
                 if q in PARTIAL and args:
                     return ("partial", args[0], args[1:], kwargs)
+                if q == "next" and args and not kwargs and isinstance(args[0], tuple) and args[0] and args[0][0] in ("list", "tuple") and not any(
+                        isinstance(x, tuple) and x and x[0] == "star" for x in args[0][1]) and (args[0][1] or len(args) == 2):
+                    # next(...) of a statically known sequence (an unrolled generator): its first element, or the default
+                    return args[0][1][0] if args[0][1] else args[1]
+                if q == "map" and len(args) >= 2 and not kwargs:
+                    # map(f, xs, ys, ...) over statically known sequences is the sequence of the element-wise applications
+                    cols = [self.static_elems(a_) for a_ in args[1:]]
+                    fn_ = self.fnval(args[0])
+                    if all(c_ is not None for c_ in cols) and (isinstance(fn_, Closure) or (isinstance(fn_, tuple) and fn_ and fn_[0] in ("global", "attr", "partial"))):
+                        n_ = min(len(c_) for c_ in cols)
+                        return ("list", tuple(self.snap(self.apply_any(fn_, tuple(c_[i] for c_ in cols))) for i in range(n_)))
                 if q == "isinstance" and len(args) == 2:
                     n = ("call", f, args, kwargs)
                     fo = self.fold(n)
